@@ -423,6 +423,8 @@ MUTANTS = [
         ('src/tbb/private_server.cpp', "    state_t prev_state = my_state.exchange(st_quit, std::memory_order_acq_rel);\n", "    my_thread_monitor.notify();\n    state_t prev_state = my_state.exchange(st_quit, std::memory_order_acq_rel);\n")]),
     dict(name='c02-worker-state-store', prop='C02', clause='D7', edits=[
         ('src/tbb/private_server.cpp', "            if (!my_state.compare_exchange_strong(state, st_normal)) {", "            if (my_state.load() != state || (my_state.store(st_normal), false)) {")]),
+    dict(name='c02-seed6-soft-limit-zero-decided-by-the-mode-flag', prop='C02', clause='D7', edits=[('src/tbb/thread_request_serializer.cpp', '    } else if (my_num_mandatory_requests > 0) {\n        my_is_mandatory_concurrency_enabled = true;\n        soft_limit = 1;\n    }\n', '    } else if (my_is_mandatory_concurrency_enabled) {\n        // Mandatory concurrency is on: keep the worker it is entitled to\n        soft_limit = 1;\n    }\n')]),
+    dict(name='c02-soft-limit-zero-does-not-ask-for-the-mandatory-worker', prop='C02', clause='D7', edits=[('src/tbb/thread_request_serializer.cpp', '    } else if (my_num_mandatory_requests > 0) {\n        my_is_mandatory_concurrency_enabled = true;\n        soft_limit = 1;\n    }\n', '    } else if (my_num_mandatory_requests > 0) {\n        my_is_mandatory_concurrency_enabled = true;\n    }\n')]),
     # ---------------------------------------------------------------- C03
     dict(name='c03-store-unconditional', prop='C03', clause='D1', edits=[
         (TDH, "            if (ed.context->cancel_group_execution()) {\n                /* We are the first to signal cancellation, so store the exception that caused it. */\n                ed.context->my_exception.store(tbb_exception_ptr::allocate(), std::memory_order_release);\n            }",
@@ -1664,6 +1666,7 @@ MUTANTS += [
 ]
 
 BENIGN = [
+    dict(name='c02-b-mandatory-request-count-read-by-load', prop='C02', edits=[('src/tbb/thread_request_serializer.cpp', '    } else if (my_num_mandatory_requests > 0) {\n        my_is_mandatory_concurrency_enabled = true;\n        soft_limit = 1;\n    }\n', '    } else if (my_num_mandatory_requests.load(std::memory_order_relaxed) != 0) {\n        soft_limit = 1;\n        my_is_mandatory_concurrency_enabled = true;\n    }\n')]),
     dict(name='c04-b-ancestor-climb-explicit-root-exit', prop='C04', edits=[('src/tbb/task_group_context.cpp', '                    (c->*mptr_state).store(new_state, std::memory_order_relaxed);\n                break;\n            }\n        }\n', '                    (c->*mptr_state).store(new_state, std::memory_order_relaxed);\n                break;\n            }\n            if (ancestor->my_parent == nullptr)\n                break;     // the root is not the source: ctx does not descend from it\n        }\n')]),
     dict(name='c19-b-cas-reloads-the-root-and-the-link-is-renewed', prop='C19', edits=[('include/oneapi/tbb/enumerable_thread_specific.h', '            for(;;) {\n                a->next = r;\n                call_itt_notify(releasing,a);\n                array* new_r = r;\n                if( my_root.compare_exchange_strong(new_r, a) ) break;\n                call_itt_notify(acquired, new_r);\n                __TBB_ASSERT(new_r != nullptr, nullptr);\n                if( new_r->lg_size >= s ) {\n                    // Another thread inserted an equal or  bigger array, so our array is superfluous.\n                    deallocate(a);\n                    break;\n                }\n                r = new_r;\n            }\n', '            for(;;) {\n                a->next = r;\n                call_itt_notify(releasing,a);\n                if( my_root.compare_exchange_strong(r, a) ) break;\n                call_itt_notify(acquired, r);\n                __TBB_ASSERT(r != nullptr, nullptr);\n                if( r->lg_size >= s ) {\n                    // Another thread inserted an equal or  bigger array, so our array is superfluous.\n                    deallocate(a);\n                    break;\n                }\n            }\n')]),
     dict(name='c10-b-accessor-hash-through-a-local', prop='C10', edits=[(CHM_H, '        result->my_hash = h;\n', '        { const hashcode_type whole_hash = h; result->my_hash = whole_hash; }\n')]),
